@@ -140,8 +140,12 @@ def check_typestate(check, an: Analysis, rule='typestate'):
                                'never true' if generator_prologue else 'sound',
                                'starts' if generator_prologue else 'does not start'))
         else:
-            raise AnalysisError('unrecognised not-started test %s at %s' % (
-                ast.unparse(test), where))
+            # neither of the two known ways to ask "has this runner started?": another
+            # state is compared -- which decides something else
+            check.instance(rule, construct, False, where,
+                           'the runner\'s state is tested with `%s`: not a test for '
+                           '"has not started yet" (CORO_CREATED / f_lasti == -1)'
+                           % ast.unparse(test))
     names = {fn.name for fn, _t, _f in preds}
     an.method(TASK, 'cancel')
     ok = _reaches(an, TASK, '__close__', names) and _reaches(an, TASK, 'cancel', names)
